@@ -18,7 +18,7 @@
    sequence), ex_sites_after_clear, ex_tracked_after_clear, ex_seek_nan, ex_iter_run. *)
 From Coq Require Import List ZArith.
 From TskVerif Require Import Base.Common C06.Model C06.Facts C06.BasicProofs C06.ListFacts C06.Valid
-  C06.CursorProofs C06.NavProofs C06.Theorems C06.IterProofs C06.FullProofs C06.CountProofs C06.SampleLists.
+  C06.CursorProofs C06.NavProofs C06.Theorems C06.IterProofs C06.FullProofs C06.CountProofs C06.SampleLists C06.Renumber.
 Import ListNotations.
 Open Scope Z_scope.
 
@@ -199,6 +199,27 @@ Theorem sample_lists_step_partial : forall ts, valid_tsb ts = true ->
      set P c (-1) = Ok P' -> Z.of_nat fuel > ts_N ts + 1 -> slist_walk ts fuel P' S p = Ok S' ->
      backed ts P' /\ zlen S' = ts_N ts + 1 /\ srec ts P' S').
 Proof. exact sample_lists_step_proof. Qed.
+
+(* (n) RENUMBERING INVARIANCE.  If ts' is ts with its node ids renumbered by an injective map pi
+   (same edge rows in the same order with parent / child mapped by [ren pi], same breakpoints),
+   then for ANY two op lists the states reached on ts and on ts', whenever they stand on the
+   same index, have the same interval and num_edges and corresponding arrays:
+   parent'[pi c] = pi (parent[c]) (NULL stays NULL), edge'[pi c] = edge[c].
+   Non-vacuity: ex_ts_rev (C06/Renumber.v) = ex_ts with pi c = 4 - c. *)
+Theorem renumbering_invariance : forall ts ts' pi ops ops',
+  valid_tsb ts = true -> valid_tsb ts' = true -> ts_N ts' = ts_N ts ->
+  ts_edges ts' = map (ren pi) (ts_edges ts) -> ts_bps ts' = ts_bps ts ->
+  (forall c, 0 <= c < ts_N ts -> 0 <= pi c < ts_N ts) ->
+  (forall a b, 0 <= a < ts_N ts -> 0 <= b < ts_N ts -> pi a = pi b -> a = b) ->
+  exists st outs st' outs',
+    run core ts ops = Ok (st, outs) /\ run core ts' ops' = Ok (st', outs') /\
+    (t_index (fst st') = t_index (fst st) ->
+     t_left (fst st') = t_left (fst st) /\ t_right (fst st') = t_right (fst st) /\
+     t_num_edges (fst st') = t_num_edges (fst st) /\
+     forall c, 0 <= c < ts_N ts ->
+       zn (t_parent (fst st')) (pi c) = pmap pi (zn (t_parent (fst st)) c) /\
+       zn (t_edge (fst st')) (pi c) = zn (t_edge (fst st)) c).
+Proof. exact renumbering_invariance_proof. Qed.
 
 (* (g) seek is total on EVERY argument, NaN included (fix eee123e): Tree.seek(x) either lands
    on the tree containing x, or raises ValueError and leaves both trees untouched; the
